@@ -107,6 +107,10 @@ func (st *State) stdlibSpecial(fn *types.Func, recv *Val, args []Val, call *ast.
 		"strings.Builder.String", "strings.Builder.Len", "strings.Builder.Cap", "strings.Builder.Reset":
 		note()
 		return st.builderOp(fn.Name(), *recv, args, call), true
+	case "math/bits.OnesCount64":
+		note()
+		fc.V.bitPrelude()
+		return []Val{vInt(st.define("pc", "Int", sApp("g_pc64", args[0].S)), intType)}, true
 	case "errors.New", "fmt.Errorf":
 		note()
 		e := fc.fresh("err", "Int")
